@@ -48,9 +48,9 @@ func pickSize(r *mon.Rand, g cfg, thorough bool) int {
 	case k < 12:
 		return []int{blk - 1, blk, blk + 1, 2*blk + 1}[r.Intn(4)]
 	case k < 14:
-		return []int{4096, 2049 + r.Intn(2048)}[r.Intn(2)] // between the package's and the specification's limit
+		return []int{4096, 2049 + r.Intn(2048)}[r.Intn(2)] // above the request limit
 	case k < 15 && thorough:
-		return ref.MaxRequest
+		return ref.SpecMaxRequest
 	}
 	return genSizes[r.Intn(len(genSizes))]
 }
@@ -122,7 +122,7 @@ func (p *pair) checkNeedReseed() {
 func history(x *mon.Ctx) {
 	selfTests(x)
 	cfgs := configs()
-	per := x.Scale(215, 5400) // histories per configuration (28 configurations)
+	per := x.Scale(360, 5400) // histories per configuration (28 configurations)
 	for i := 0; i < per; i++ {
 		for _, g := range cfgs {
 			c := x.Begin("history cfg=%s #%d (constructor inputs, 12-30 operations and their arguments are drawn from the case PRNG; the operation list is attached to a violation)", g.name(), i)
@@ -133,13 +133,13 @@ func history(x *mon.Ctx) {
 			c.End()
 		}
 	}
-	// the specification's own request limit (2^19 bits)
+	// far above the request limit, around the specification's own 2^19 bits
 	for _, g := range cfgs {
-		c := x.Begin("spec-limit cfg=%s Generate(65536) then Generate(65537)", g.name())
+		c := x.Begin("over-limit cfg=%s Generate(max+1), Generate(4097), Generate(65536), Generate(65537): all refused, state untouched", g.name())
 		if c == nil {
 			continue
 		}
-		specLimit(x, c, g)
+		overLimit(x, c, g)
 		c.End()
 	}
 	if x.Thorough() {
@@ -179,8 +179,9 @@ func oneHistory(x *mon.Ctx, c *mon.Case, g cfg) {
 			return
 		}
 	}
-	if got, want := p.lib.MaxBytesPerRequest(), p.model.PackageMax(); got != want {
-		c.Event("max_bytes_per_request_differs_from_documented", 1) // observation, not a verdict
+	if got, want := p.lib.MaxBytesPerRequest(), p.model.MaxRequest(); got != want {
+		p.fail("mismatch", "%s MaxBytesPerRequest()=%d; documented: %d", g.name(), got, want)
+		return
 	}
 	nops := r.Range(12, 30)
 	crossings := 0
@@ -229,15 +230,15 @@ func oneHistory(x *mon.Ctx, c *mon.Case, g cfg) {
 
 // sizeKey keeps class keys bounded: sizes of the lattice are kept, others bucketed.
 func sizeKey(n int) int {
-	if n <= 2049 || n == 4096 || n == ref.MaxRequest {
+	if n <= 2049 || n == 4096 || n == ref.SpecMaxRequest {
 		return n
 	}
-	return 3000 // "between the limits"
+	return 3000 // some size above the limit
 }
 
-// specLimit: a request of exactly 2^19 bits may be served or refused (package limit), one byte
-// more is above what SP 800-90A allows for any of the mechanisms.
-func specLimit(x *mon.Ctx, c *mon.Case, g cfg) {
+// overLimit: requests far above MaxBytesPerRequest() - up to and just past the specification's own
+// 2^19 bits - must be refused without touching buffer or state, by every mechanism.
+func overLimit(x *mon.Ctx, c *mon.Case, g cfg) {
 	r := c.R
 	minE, minN := g.nominal()
 	p := instantiate(c, g, levelTest, 0, r.Bytes(2*minE), r.Bytes(2*minN), nil)
@@ -247,60 +248,22 @@ func specLimit(x *mon.Ctx, c *mon.Case, g cfg) {
 		}
 		return
 	}
-	c.Class("%s/spec-limit", g.name())
-	res := p.generate(ref.MaxRequest, pickAddl(r))
-	c.Event("spec_limit_"+res, 1)
+	c.Class("%s/over-limit", g.name())
+	p.generate(g.block(), nil)
+	for _, n := range []int{p.model.MaxRequest() + 1, 2*ref.PackageMaxRequest + 1, ref.SpecMaxRequest, ref.SpecMaxRequest + 1} {
+		if p.dead {
+			return
+		}
+		res := p.generate(n, pickAddl(r))
+		c.Event("over_limit_"+res, 1)
+	}
 	if p.dead {
 		return
 	}
-	// one byte above the specification's limit
-	n := ref.MaxRequest + 1
-	out := make([]byte, n)
-	for i := range out {
-		out[i] = marker
+	// the state did not move
+	if res := p.generate(g.block(), nil); res != "ok" && res != "time-gap" && res != "time" && !c.Failed() {
+		p.fail("reject", "%s: Generate(one block) after refused oversized requests: %s", g.name(), res)
 	}
-	var err error
-	p.logf("Generate(n=%d)", n)
-	if !c.Call("Generate", func() { err = p.lib.Generate(out, nil) }) {
-		return
-	}
-	if err != nil {
-		c.Event("above_spec_limit_refused", 1)
-		for i, b := range out {
-			if b != marker {
-				p.fail("mismatch", "%s Generate(n=%d) refused (%v) but wrote the output buffer at offset %d", g.name(), n, err, i)
-				return
-			}
-		}
-		// state untouched?
-		if p.generate(g.block(), nil) != "ok" && !c.Failed() {
-			p.fail("reject", "%s: Generate(one block) after a refused oversized request failed", g.name())
-		}
-		return
-	}
-	aboveSpecLimitServed(x, p, n, out)
-}
-
-// aboveSpecLimitServed: the library served more than max_number_of_bits_per_request. On the pinned
-// tree HMAC Generate has no request limit at all (DESIGN 6 C17 records the inconsistency as an
-// observation). The bytes are still compared with the unbounded algorithm, so only the missing bound
-// itself is tolerated.
-func aboveSpecLimitServed(x *mon.Ctx, p *pair, n int, out []byte) {
-	c := p.c
-	if p.g.mech != "hmac" {
-		p.fail("accept", "%s Generate(n=%d) was served; SP 800-90A allows at most %d bytes per request", p.g.name(), n, ref.MaxRequest)
-		return
-	}
-	m := p.model.(*ref.HMACDRBG)
-	// the algorithm without the bound: two requests cannot be chained (each ends with an update), so
-	// run the steps of 10.1.2.5 here
-	var want []byte
-	for len(want) < n {
-		m.V = m.H.HMAC(m.K, m.V)
-		want = append(want, m.V...)
-	}
-	c.Event("hmac_above_spec_limit_served_observation", 1)
-	c.Eq("HMAC Generate above the specification's request limit (unbounded algorithm)", out, want[:n])
 }
 
 // timeRule observes the GM reseed time interval once per mechanism (thorough only): the test
